@@ -44,6 +44,7 @@ SPECS = {
     "lru": ("Eb", lambda t: ["lru", "8" if t == "thorough" else "6"], "LruCache vs abstract LRU model: every get/put history (bounded) over 4 keys, capacities 0..=4"),
     "labels": ("Eb", lambda t: ["labels", "20000" if t == "thorough" else "5000"], "decimal/roman format(n) vs reference formatters; PageLabel/PageLabelTree::to_dict read by an independent object-level reader"),
     "content": ("Eb", lambda t: ["content", "4" if t == "thorough" else "3"], "API -> content stream -> ContentParser::parse_strict: show-text operands and f64 operands with NaN/inf"),
+    "png-grid": ("Eb", lambda t: ["png-grid"], "PNG files from a reference encoder (gray 1/2/4/8 bit, RGB8; filters 0-4; widths 1..17) -> Image::from_png_data vs expected 8-bit samples"),
     "letters": ("Eb", lambda t: ["letters", "20000" if t == "thorough" else "5000"], "PageLabelStyle letters format(n) vs ISO and vs bijective base-26"),
 }
 
@@ -72,6 +73,10 @@ def run(prop, names, tier):
                 rec["failures"].append(dict(unit="standin", function=nm, message=f"{kind} stand-in {nm}: {n} disagreement(s)",
                                             line=0, src=None, spans=[], rendered=json.dumps(dis)[:2500], engine=kind,
                                             standin_witness=dis if not isinstance(dis, int) else None))
+            if nm == "png-grid" and res.get("subbyte_wrong"):
+                rec["subbyte_total"] = res.get("subbyte_total"); rec["subbyte_wrong"] = res.get("subbyte_wrong")
+                rec["failures"].append(dict(unit="standin", function="png-grid-subbyte", message=f"Eb stand-in: {res['subbyte_wrong']} of {res['subbyte_total']} gray PNGs with bit depth < 8 do not decode to the expected samples",
+                                            line=0, src=None, spans=[], rendered="", engine="Eb", standin_witness=[dict(depth=1, width=16, height=1)]))
             if nm == "enc-tables":
                 rec["silent_replacement_count"] = res.get("silent_replacement_count")
                 rec["pdfdoc_disagreement_count"] = res.get("pdfdoc_disagreement_count")
